@@ -145,6 +145,9 @@ func (p *batchProp[C]) run(t *testing.T) {
 				}
 			}
 		}
+		if p.Check == nil && p.OnNotBuilt == nil {
+			return fails // generation-only property: nothing to build
+		}
 		anyOK := false
 		for i := range results {
 			if results[i].CompileErr != nil && p.OnGenerated == nil {
